@@ -1293,6 +1293,8 @@ enum PathsSource<'a> {
     Live(&'a FxHashMap<ConnId, ConnectionState>),
     #[cfg(test)]
     Test(Vec<PathSelectionData<'a>>),
+    #[cfg(feature = "verif-hooks")]
+    Verif(Vec<PathSelectionData<'a>>),
 }
 
 #[cfg_attr(not(feature = "unstable-custom-transports"), allow(unreachable_pub))]
@@ -1342,6 +1344,8 @@ impl<'a> PathSelectionContext<'a> {
             ),
             #[cfg(test)]
             PathsSource::Test(paths) => Box::new(paths.iter().cloned()),
+            #[cfg(feature = "verif-hooks")]
+            PathsSource::Verif(paths) => Box::new(paths.iter().cloned()),
         }
     }
 }
@@ -1369,6 +1373,8 @@ enum StatsSource {
     /// size in production where only the `Live` variant is ever constructed.
     #[cfg(test)]
     Test(Option<Box<PathStats>>),
+    #[cfg(feature = "verif-hooks")]
+    Verif(Option<Box<PathStats>>),
 }
 
 #[cfg_attr(not(feature = "unstable-custom-transports"), allow(unreachable_pub))]
@@ -1410,6 +1416,36 @@ impl<'a> PathSelectionData<'a> {
             StatsSource::Live { path_id, conn } => conn.path_stats(*path_id),
             #[cfg(test)]
             StatsSource::Test(stats) => stats.as_deref().copied(),
+            #[cfg(feature = "verif-hooks")]
+            StatsSource::Verif(stats) => stats.as_deref().copied(),
+        }
+    }
+}
+
+/// Constructors for the external runtime-verification harness, equivalent to the
+/// `for_test` constructors above.
+#[cfg(feature = "verif-hooks")]
+impl<'a> PathSelectionContext<'a> {
+    pub(crate) fn verif_new(
+        current: Option<&'a transports::FourTuple>,
+        paths: Vec<PathSelectionData<'a>>,
+    ) -> Self {
+        Self {
+            current,
+            source: PathsSource::Verif(paths),
+        }
+    }
+}
+
+#[cfg(feature = "verif-hooks")]
+impl<'a> PathSelectionData<'a> {
+    pub(crate) fn verif_new(
+        network_path: &'a transports::FourTuple,
+        stats: Option<PathStats>,
+    ) -> Self {
+        Self {
+            network_path,
+            source: StatsSource::Verif(stats.map(Box::new)),
         }
     }
 }
